@@ -2254,6 +2254,10 @@ impl TieredEngine {
             .cold_tier
             .current_coherence_token(doc_id)
             .ok_or_else(|| anyhow!("insert succeeded but cold tier has no canonical token"))?;
+        // Shared side of the drain gate, held across the mirror insert and the re-check below:
+        // a drain running between the two would take the (possibly orphaned) entry and
+        // "repair" it into the cold tier before this write path can take it back.
+        let drain_gate = self.hot_tier.delete_guard();
         self.hot_tier
             .insert_with_coherence(doc_id, embedding, metadata, coherence);
 
@@ -2264,6 +2268,7 @@ impl TieredEngine {
         if self.cold_tier.current_coherence_token(doc_id) != Some(coherence) {
             self.hot_tier.delete_if_coherence(doc_id, coherence);
         }
+        drop(drain_gate);
 
         let mut stats = self.stats.write();
         stats.total_inserts += 1;
